@@ -206,6 +206,10 @@ func genC08(r *Rng, tier string, emit func(string, Tok)) {
 			for _, extra := range []int{1, 2, 3, 4, 16, r.Range(5, 40)} {
 				w := widen(data, extra, r)
 				emit("wide-explicit", scenario{kind: r.Intn(3), optSize: 188 + extra, fault: -1, chunks: []int{r.Range(1, 300)}, data: w, ops: []int{op}}.tok())
+				// a bufio.Reader whose buffer is smaller than, equal to or just larger than one packet (explicit size: the
+				// Demuxer never peeks, any buffer size must do)
+				emit("wide-explicit-bufio-size", scenario{kind: 2, optSize: 188 + extra, fault: -1, chunks: []int{r.Range(1, 300)}, data: w, ops: []int{op},
+					bufSize: []int{16, 100, 187, 188, 188 + extra - 1, 188 + extra, 188 + extra + 1, 193, 400}[r.Intn(9)]}.tok())
 				if extra <= 4 {
 					emit("wide-auto", scenario{kind: 1 + r.Intn(2), optSize: 0, fault: -1, chunks: []int{r.Range(1, 300)}, data: w, ops: []int{op}}.tok())
 				}
@@ -787,6 +791,46 @@ func genC06(r *Rng, tier string, emit func(string, Tok)) {
 			}
 			emit("multi-fault", scenario{kind: 1, optSize: 188, fault: -1, prsSpec: L(I(1)), data: d, ops: []int{3}}.tok())
 		}
+	}
+	// bursts of exactly 13..15 lost packets of one PID inside long units of full packets (after 15 the counter repeats
+	// the last one received: only the bytes tell the packet from a duplicate), clear and scrambled
+	// (transport_scrambling_control 2 / 3) PIDs, other PIDs interleaved
+	for k := 0; k < scale(tier, 12, 120); k++ {
+		m := genRefStream(r, streamOpts{PESPIDs: 2, UnitsPerPID: 3, MaxPES: 300, Tables: true, PESTotals: []int{184 * r.Range(20, 30), 184 * r.Range(20, 30), 184 * r.Range(2, 5)}})
+		data := m.bytes()
+		np := len(data) / 188
+		pid0 := m.PIDs[len(m.PIDs)-1]
+		for _, q := range m.PIDs {
+			if us := m.Units[q]; len(us) == 3 && !us[0].IsPSI && len(us[0].Bytes) > 3000 {
+				pid0 = q
+			}
+		}
+		tsc := byte([]int{0, 0x80, 0xc0}[k%3])
+		var own []int
+		for i := 0; i < np; i++ {
+			b := pktAt(data, i)
+			if uint16(b[1]&0x1f)<<8|uint16(b[2]) == pid0 {
+				b[3] |= tsc
+				own = append(own, i)
+			}
+		}
+		if len(own) < 24 {
+			continue
+		}
+		burst := []int{15, 15, 14, 13}[r.Intn(4)]
+		start := r.Range(1, len(own)-burst-2)
+		drop := map[int]bool{}
+		for _, i := range own[start : start+burst] {
+			drop[i] = true
+		}
+		var d []byte
+		for i := 0; i < np; i++ {
+			if !drop[i] {
+				d = append(d, pktAt(data, i)...)
+			}
+		}
+		emit("clean", scenario{kind: 1, optSize: 188, fault: -1, prsSpec: L(I(1)), data: data, ops: []int{3}}.tok())
+		emit(fmt.Sprintf("burst-%d", burst), scenario{kind: 1, optSize: 188, fault: -1, prsSpec: L(I(1)), data: d, ops: []int{3}}.tok())
 	}
 	// K2: the first packet of a unit is lost and the continuation begins with a start code
 	for k := 0; k < scale(tier, 3, 20); k++ {
